@@ -64,6 +64,16 @@ Definition set_par (p : nat) (nd : node) : node := mkNode (ty nd) (Some p) (lft 
 Definition set_lft (c : nat) (nd : node) : node := mkNode (ty nd) (par nd) (Some c) (rgt nd).
 Definition set_rgt (c : nat) (nd : node) : node := mkNode (ty nd) (par nd) (lft nd) (Some c).
 
+(* the parent/left/right arrays of a tree whose nodes are numbered in prefix order starting at
+   [off], the root having parent [p] (spec side of C01_check_tree_arrays) *)
+Fixpoint arr (u : tree) (off : nat) (p : option nat) : list node :=
+  match u with
+  | L => [mkNode 0 p None None]
+  | U c => mkNode 1 p (Some (S off)) None :: arr c (S off) (Some off)
+  | B l r => mkNode 2 p (Some (S off)) (Some (S (off + size l)))
+             :: arr l (S off) (Some off) ++ arr r (S (off + size l)) (Some off)
+  end.
+
 Definition is_none {A} (o : option A) : bool := match o with None => true | Some _ => false end.
 
 Fixpoint upd {A} (i : nat) (f : A -> A) (l : list A) : list A :=
